@@ -552,3 +552,135 @@ Proof.
 Qed.
 
 End R.
+
+(* ---- random mode, natural end of a track: the handler walks over unplayable entries at the
+   head of the shuffle order *)
+Section RE.
+Variable shuf : Z -> list tlt -> list tlt.
+
+Lemma eot_random_head u x rest w :
+  World.tl w <> [] -> random w = true -> single w = false -> shuffled w = x :: rest ->
+  eot_track shuf u w = (Ok (Some x), w).
+Proof.
+  intros Hne Hr Hs Hsh. unfold eot_track. unfold bind at 1. unfold get at 1. rewrite Hs. cbn [andb].
+  apply (next_random_head shuf u x rest w); assumption.
+Qed.
+
+Lemma refuse1_fields_sh u w :
+  World.tl (refuse1 u w) = World.tl w /\ tkinds (refuse1 u w) = tkinds w
+  /\ consume (refuse1 u w) = consume w /\ random (refuse1 u w) = random w
+  /\ single (refuse1 u w) = single w /\ shuffled (refuse1 u w) = shuffled w
+  /\ a_uri (refuse1 u w) = a_uri w /\ (script w = [] -> script (refuse1 u w) = []).
+Proof.
+  unfold refuse1. destruct (tkind_has_backend (kind_of w (trk u))); repeat split; auto.
+  intros Hs. cbn. rewrite Hs. reflexivity.
+Qed.
+
+Lemma refuse_all_shuffled us : forall w sh, refuse_all us (w <| shuffled := sh |>) = refuse_all us w <| shuffled := sh |>.
+Proof.
+  induction us as [|u r IH]; intros w sh; cbn [refuse_all]; [reflexivity|].
+  assert (E : refuse1 u (w <| shuffled := sh |>) = refuse1 u w <| shuffled := sh |>).
+  { unfold refuse1. change (kind_of (w <| shuffled := sh |>) (trk u)) with (kind_of w (trk u)).
+    destruct (tkind_has_backend (kind_of w (trk u))); reflexivity. }
+  rewrite E. apply IH.
+Qed.
+
+Lemma atf_loop_skips_random : forall us f x rest count w,
+  World.tl w <> [] -> shuffled w = us ++ x :: rest ->
+  consume w = false -> random w = true -> single w = false ->
+  (forall u, In u us -> kind_of w (trk u) <> Playable) ->
+  kind_of w (trk x) = Playable -> script w = [] -> a_uri w = None ->
+  zlen us < count ->
+  atf_loop shuf (S (length us + f)) (Some (hd x us)) count w
+  = (Ok tt, fx_attempt (trk x) (refuse_all us w <| shuffled := x :: rest |>) <| pending := Some x |>).
+Proof.
+  induction us as [|u r IH]; intros f x rest count w Hne Hsh Hco Hr Hsg Hus Hkx Hscr Hu Hcount.
+  - cbn [length Nat.add atf_loop hd refuse_all app] in *.
+    assert (E0 : get w = (Ok w, w)) by reflexivity. step E0.
+    assert (Hb : has_backend w (Some x) = true) by (unfold has_backend; rewrite Hkx; reflexivity).
+    rewrite Hb.
+    assert (E1 : attempt_change (trk x) w = (Ok true, fx_attempt (trk x) w)).
+    { apply attempt_run; [exact Hkx|rewrite Hscr; reflexivity|exact Hu]. }
+    step E1. unfold modify. f_equal. unfold fx_attempt. world_eq. exact Hsh.
+  - cbn [length Nat.add atf_loop hd refuse_all app] in *.
+    assert (E0 : get w = (Ok w, w)) by reflexivity. step E0.
+    pose proof (refuse1_run u w (Hus u (or_introl eq_refl))) as E1. step E1.
+    set (w1 := refuse1 u w) in *.
+    destruct (refuse1_fields_sh u w) as (F1 & F2 & F3 & F4 & F5 & F6 & F7 & F8). fold w1 in F1, F2, F3, F4, F5, F6, F7, F8.
+    set (w2 := w1 <| shuffled := r ++ x :: rest |>).
+    assert (E2 : mark_unplayable shuf (Some u) w1 = (Ok tt, w2)).
+    { apply (mark_unplayable_random shuf u (r ++ x :: rest) w1); [congruence|congruence|rewrite F6; exact Hsh]. }
+    step E2.
+    assert (Hn : eot_track shuf (Some u) w2 = (Ok (Some (hd x r)), w2)).
+    { apply (eot_random_head (Some u) (hd x r) (List.tl (r ++ x :: rest)) w2).
+      - change (World.tl w2) with (World.tl w1). rewrite F1. exact Hne.
+      - change (random w2) with (random w1). congruence.
+      - change (single w2) with (single w1). congruence.
+      - cbn. destruct r; reflexivity. }
+    step Hn. cbv zeta.
+    pose proof (zlen_nonneg r) as Hz. rewrite zlen_cons in Hcount.
+    assert (Hc1 : (count - 1 <=? 0) = false) by (clear - Hz Hcount; lia). rewrite Hc1.
+    assert (Hk1 : forall y, kind_of w2 (trk y) = kind_of w (trk y)) by (intros y; unfold kind_of; change (tkinds w2) with (tkinds w1); rewrite F2; reflexivity).
+    rewrite (IH f x rest (count - 1) w2).
+    + unfold w2. rewrite refuse_all_shuffled. reflexivity.
+    + change (World.tl w2) with (World.tl w1). rewrite F1. exact Hne.
+    + reflexivity.
+    + change (consume w2) with (consume w1). congruence.
+    + change (random w2) with (random w1). congruence.
+    + change (single w2) with (single w1). congruence.
+    + intros y Hy. rewrite Hk1. apply Hus. right. exact Hy.
+    + rewrite Hk1. exact Hkx.
+    + change (script w2) with (script w1). apply F8. exact Hscr.
+    + change (a_uri w2) with (a_uri w1). congruence.
+    + clear - Hz Hcount; lia.
+Qed.
+
+Theorem eot_skips_unplayable_random f us c x rest len w :
+  World.tl w <> [] -> shuffled w = us ++ x :: rest -> zlen us < zlen (World.tl w) * 2 ->
+  settled_on w c -> pstate w = Playing -> consume w = false -> random w = true -> single w = false ->
+  a_atf_done w = false -> len_of w (trk c) = Some len -> script w = [] ->
+  (forall u, In u us -> kind_of w (trk u) <> Playable) -> kind_of w (trk x) = Playable ->
+  let w' := run_world shuf (S (length us + f)) w [AboutToFinish; Deliver; Deliver] in
+  current w' = Some x /\ pstate w' = Playing /\ pending w' = None /\ queue w' = []
+  /\ a_uri w' = Some (trk x) /\ a_state w' = Playing /\ World.tl w' = World.tl w
+  /\ events w' = EvStarted x :: EvStateChanged Playing Playing :: EvEnded c len :: events w.
+Proof.
+  intros Hne Hsh Hcount Hso Hst Hco Hr Hsg Hd Hlen Hscr Hus Hkx.
+  pose proof Hso as [Hq Hp Hpp Hsa Hsp Hpf Hc Hb Ha]. rewrite Hst in Ha. destruct Ha as [Hu Has].
+  set (w0 := w <| a_uri := None |>).
+  set (wl := w0 <| last_position := Some len |>).
+  assert (Hscr0 : script wl = []) by exact Hscr.
+  destruct (refuse_all_form us wl Hscr0) as (n & l & EF).
+  set (wt := logged n l w <| shuffled := x :: rest |>).
+  assert (EH : on_about_to_finish shuf (S (length us + f)) w0 = (Ok tt, fx_handler x len wt)).
+  { unfold on_about_to_finish.
+    assert (E0 : get w0 = (Ok w0, w0)) by reflexivity. step E0.
+    change (pstate w0) with (pstate w). rewrite Hst. cbn [ps_eqb].
+    change (current w0) with (current w). rewrite Hc.
+    assert (E1 : modify (fun w1 => w1 <| last_position := len_of w1 (trk c) |>) w0 = (Ok tt, wl)).
+    { unfold wl, modify. change (len_of w0 (trk c)) with (len_of w (trk c)). rewrite Hlen. reflexivity. }
+    step E1.
+    assert (E2 : get wl = (Ok wl, wl)) by reflexivity. step E2.
+    change (current wl) with (current w). rewrite Hc.
+    assert (He : eot_track shuf (Some c) wl = (Ok (Some (hd x us)), wl)).
+    { apply (eot_random_head (Some c) (hd x us) (List.tl (us ++ x :: rest)) wl); try assumption.
+      change (shuffled wl) with (shuffled w). rewrite Hsh. destruct us; reflexivity. }
+    step He. step E2.
+    rewrite (atf_loop_skips_random us f x rest (zlen (World.tl wl) * 2) wl); try assumption; try reflexivity.
+    rewrite EF. reflexivity. }
+  assert (E1 : about_to_finish shuf (S (length us + f)) w = (Ok tt, fx_about_to_finish x len wt)).
+  { unfold about_to_finish.
+    assert (E0 : get w = (Ok w, w)) by reflexivity. step E0.
+    rewrite Hu, Has, Hd. cbn [ps_eqb negb andb].
+    assert (E2 : modify (fun w => w <| a_uri := None |>) w = (Ok tt, w0)) by reflexivity. step E2.
+    step EH.
+    exact (atf_tail_run (trk c) (trk x) (fx_handler x len wt) eq_refl Has). }
+  assert (Hsot : settled_on wt c).
+  { constructor; try assumption. change (pstate wt) with (pstate w). rewrite Hst. split; assumption. }
+  destruct (eot_block_from shuf (length us + f) x c len w wt Hsot Hst Hco Hkx E1) as (R1 & R2 & R3 & R4).
+  destruct R1 as [Q1 Q2 Q3 Q4 Q5 Q6 Q7 Q8 Q9]. cbv zeta.
+  rewrite R2 in Q9. destruct Q9 as [Q9 Q10].
+  repeat split; assumption.
+Qed.
+
+End RE.
